@@ -114,6 +114,19 @@ func genVarQuery(t *rapid.T, a Anno, name string, allowIns bool, indelHeavy bool
 			}
 		}
 	}
+	// an IUPAC codon that still has a single translation (incl. the doubly ambiguous YTR, MGR), on the feature's strand
+	if len(a.Feats) > 0 && rapid.IntRange(0, 4).Draw(t, "iupacCodon") == 0 {
+		f := a.Feats[rapid.IntRange(0, len(a.Feats)-1).Draw(t, "iupacCodonFeat")]
+		k := rapid.IntRange(0, f.nCodons()-1).Draw(t, "iupacCodonIdx")
+		codon := rapid.SampledFrom([]string{"YTR", "MGR", "YTA", "YTG", "MGA", "MGG", "TTR", "CTN", "AGR", "CGN", "TCN", "AGY", "ACN", "GGN", "ATH", "TAR", "TRA", "AAY", "GAR", "RAT", "NNN", "ATN"}).Draw(t, "iupacCodonSyms")
+		for i, p := range f.codingPositions()[3*k : 3*k+3] {
+			c := codon[i]
+			if f.Strand < 0 {
+				c = complementBase(c)
+			}
+			q.Row[p-1] = c
+		}
+	}
 	// deletions
 	for k := rapid.IntRange(0, maxIndel).Draw(t, "nDel"); k > 0; k-- {
 		p := pickPos(t, a, "delPos")
